@@ -21,6 +21,7 @@
 #include <sys/mman.h>
 #include "convert.h"
 #include "types.h"
+#include "meta.h"
 #include "mc.hpp"
 
 using namespace mc;
@@ -31,6 +32,7 @@ typedef long double ld;
 const char *mc_id = "C07";
 const char *mc_rule = "input grid: (entry point, source type) x source values (8/16-bit exhaustive, structured grid otherwise, thorough: all 2^32 i/u/f patterns) x 13 target types x {perform, query}; "
                       "(text entry point, base) x {numeral grid, all strings up to length L over ' -+019xf.e'} x {perform, query}; "
+                      "C++ wrappers (metatype::generic, metatype::create, metatype::value<T>, metatype via C dispatcher, value::convert) x all ordered pairs of source types, each pair in a fresh process: A values, B values, A again x 13 targets x {perform, query}; "
                       "nontrivial = distinct inputs whose source number is NOT exactly representable in the target (out of range, fraction, NaN/inf to integer, needs rounding, beyond 64 bit)";
 
 // ------------------------------------------------------------------ types
@@ -264,6 +266,7 @@ static void install_guard()
 	int sigs[] = {SIGSEGV, SIGBUS, SIGFPE, SIGILL};
 	for (int s : sigs) sigaction(s, &sa, &g_old[s]);
 }
+static void g_reinstall_guard() { g_installed = false; install_guard(); }   // mc::in_child resets the handlers in the child
 static const char *signame(int s) { return s == SIGSEGV ? "SIGSEGV" : s == SIGBUS ? "SIGBUS" : s == SIGFPE ? "SIGFPE" : s == SIGILL ? "SIGILL" : "SIGNAL"; }
 #define GUARD(sigvar, stmt) do { sigvar = sigsetjmp(g_jb, 0); if (!sigvar) { g_armed = 1; stmt; g_armed = 0; } else g_armed = 0; } while (0)
 
@@ -391,12 +394,14 @@ static conv_fn direct_fn(char s)
 	}
 	return 0;
 }
-static const char *ENTRY[] = {"direct", "converter", "value", "iter"};
-static const char *GROUP[] = {"data_convert", "data_convert", "value_convert", "iterator_consume"};
+static const char *ENTRY[] = {"direct", "converter", "value", "iter", "cxx-generic", "cxx-create", "cxx-tvalue", "cxx-metaptr", "cxx-value"};
+static const char *GROUP[] = {"data_convert", "data_convert", "value_convert", "iterator_consume", "cxx-generic", "cxx-create", "cxx-tvalue", "cxx-metaptr", "cxx-value"};
+static const int NCXX = 5, CXX0 = 4;
 struct VJob {
 	int entry; char s; conv_fn direct; void *src; void *dst[NDST];
+	mpt::metatype *mt;     // C++ entries: the wrapper object holding a copy of the source value
 	Cnt c;
-	VJob(int e, char st) : entry(e), s(st), direct(direct_fn(st))
+	VJob(int e, char st) : entry(e), s(st), direct(direct_fn(st)), mt(0)
 	{
 		src = malloc(ti(s).size);
 		for (int i = 0; i < NDST; ++i) dst[i] = malloc(ti(DST[i]).size);
@@ -409,7 +414,10 @@ static inline int do_call(VJob &J, char t, void *dest)
 	case 0: return J.direct(J.src, (mpt::type_t) t, dest);
 	case 1: { mpt::data_converter_t f = mpt::mpt_data_converter((mpt::type_t) J.s); if (!f) return -9999; return f(J.src, (mpt::type_t) t, dest); }
 	case 2: { mpt::value v; v._addr = J.src; v._type = (mpt::type_t) J.s; return mpt::mpt_value_convert(&v, (mpt::type_t) t, dest); }
-	default: { OneIt it; it.v._addr = J.src; it.v._type = (mpt::type_t) J.s; return mpt::mpt_iterator_consume(&it, (mpt::type_t) t, dest); }
+	case 3: { OneIt it; it.v._addr = J.src; it.v._type = (mpt::type_t) J.s; return mpt::mpt_iterator_consume(&it, (mpt::type_t) t, dest); }
+	case 4: case 5: case 6: return J.mt->convert((mpt::type_t) t, dest);          // metatype::generic / metatype::value<T>
+	case 7: { mpt::value v; v._addr = &J.mt; v._type = mpt::TypeMetaPtr; return mpt::mpt_value_convert(&v, (mpt::type_t) t, dest); }   // C dispatcher -> metatype pointer
+	default: { mpt::value v; v.set((int) J.s, J.src); return v.convert((mpt::type_t) t, dest); }   // C++ value::convert
 	}
 }
 // class of the source number relative to the target; rep = exactly representable
@@ -531,6 +539,92 @@ static uint64_t sweep_run(VJob &J, int tix, uint64_t lo, uint64_t start, uint64_
 	J.c.exact += exact; J.c.refused_rep += rrep; J.c.refused_unrep += runrep; J.c.nontrivial += runrep;
 	J.c.cases += i - start; J.c.query_agree += i - start;
 	return i;
+}
+
+// ------------------------------------------------------------------ C++ value path: ordered pairs of source types on ONE process state
+// metatype::generic (created directly and through metatype::create(value)), metatype::value<T>, a metatype
+// reached through the C dispatcher (TypeMetaPtr value) and value::convert.  A case is an ordered pair
+// (A, B) of source types run in a fresh forked child: all A values x all targets, then all B values x all
+// targets, then the A values again -- so state cached by the first conversion (a function-local static, a
+// stale converter) is exposed by the second type.  Oracle = check_value, the same as for the C path.
+static void reduced_values(char s, Tier tier, std::vector<Val> &out)
+{
+	const TI &S = ti(s);
+	if (tier == Thorough && strchr("cbyiuxtf", s)) { gen_values(s, out); return; }
+	out.clear();
+	if (S.kind != KF) {
+		const i128 one = 1;
+		const i128 c[] = {0, 1, -1, 2, -3, 5, 7, 33, 65, 126, 127, 128, -128, -129, 255, 256, 257, 32767, 32768, -32768, -32769, 65535, 65536, 65541,
+			(one << 31) - 1, one << 31, -(one << 31), -(one << 31) - 1, (one << 32) - 1, one << 32, (one << 32) + 5, -((one << 32) + 5), (one << 40) + 65,
+			(one << 63) - 1, -(one << 63), one << 63, (one << 64) - 1};
+		i128 lo, hi; int_range(S, lo, hi);
+		for (i128 v : c) if (v >= lo && v <= hi) { Val x; memset(x.b, 0, 16); uint64_t u = (uint64_t) v; memcpy(x.b, &u, S.size); out.push_back(x); }
+	} else {
+		const ld c[] = {0.0L, -0.0L, 1, -1, 2.5L, -3, 0.5L, 65, 127, 128, 255, 256, 65535, 65536, 2147483648.0L, 4294967301.0L, 1e10L, 0.1L,
+			(ld) FLT_MAX, -(ld) FLT_MAX, (ld) FLT_MIN, ldexpl(1, S.qmin), fmax_of(S), -fmax_of(S), 1e39L, -1e39L, 1e309L, 18446744073709551615.0L, 9223372036854775808.0L,
+			(ld) INFINITY, -(ld) INFINITY, (ld) NAN};
+		for (ld v : c) {
+			if (v == v && !std::isinf(v) && fabsl(v) > fmax_of(S)) continue;
+			if (s == 'f') push_f<float>(out, (float) v); else if (s == 'd') push_f<double>(out, (double) v); else push_f<ld>(out, v);
+		}
+	}
+	std::sort(out.begin(), out.end(), val_lt);
+	out.erase(std::unique(out.begin(), out.end(), val_eq), out.end());
+}
+static mpt::metatype *make_wrapper(int entry, char s, const void *p)
+{
+	using namespace mpt;
+	switch (entry) {
+	case 4: case 7: return metatype::generic::create((type_t) s, p);
+	case 5: { ::mpt::value v; v.set((int) s, p); return metatype::create(v); }
+	case 6:
+		switch (s) {
+		case 'c': return new metatype::value<char>(*(const char *) p);
+		case 'b': return new metatype::value<int8_t>(*(const int8_t *) p);
+		case 'y': return new metatype::value<uint8_t>(*(const uint8_t *) p);
+		case 'n': return new metatype::value<int16_t>(*(const int16_t *) p);
+		case 'q': return new metatype::value<uint16_t>(*(const uint16_t *) p);
+		case 'i': return new metatype::value<int32_t>(*(const int32_t *) p);
+		case 'u': return new metatype::value<uint32_t>(*(const uint32_t *) p);
+		case 'x': return new metatype::value<int64_t>(*(const int64_t *) p);
+		case 't': return new metatype::value<uint64_t>(*(const uint64_t *) p);
+		case 'f': return new metatype::value<float>(*(const float *) p);
+		case 'd': return new metatype::value<double>(*(const double *) p);
+		case 'e': return new metatype::value<ld>(*(const ld *) p);
+		}
+	}
+	return 0;
+}
+// runs in the forked child; result lines: N states transitions | C key value | V sig count detail
+static std::string cxx_pair(Tier tier, int entry, char A, char B)
+{
+	Run cr; cr.tier = tier;
+	g_reinstall_guard();
+	report = Reporter();
+	uint64_t nomake = 0, made = 0;
+	const char seq[3] = {A, B, A};
+	Vec vec;
+	for (int ph = 0; ph < 3; ++ph) {
+		VJob J(entry, seq[ph]);
+		std::vector<Val> vals; reduced_values(seq[ph], tier, vals);
+		for (const Val &v : vals) {
+			memcpy(J.src, v.b, ti(J.s).size);
+			if (entry != 8) {
+				J.mt = make_wrapper(entry, J.s, J.src);     // never released: the child exits
+				if (!J.mt) { ++nomake; continue; }
+			}
+			++made;
+			for (int tix = 0; tix < NDST; ++tix) check_value(cr, J, v, tix, vec);
+		}
+		J.c.flush(cr, (std::string(ENTRY[entry]) + ":").c_str());
+		cr.counters["nontrivial"] += 0;
+	}
+	std::string out = fmt("N\t%llu\t%llu\n", (unsigned long long) cr.states, (unsigned long long) cr.transitions);
+	out += fmt("C\t%s:wrapper_objects\t%llu\n", ENTRY[entry], (unsigned long long) made);
+	if (nomake) out += fmt("C\t%s:wrapper_not_created(not flagged)\t%llu\n", ENTRY[entry], (unsigned long long) nomake);
+	for (auto &c : cr.counters) out += "C\t" + c.first + "\t" + std::to_string(c.second) + "\n";
+	for (auto &v : cr.viols) { std::string d = v.second.detail; for (char &ch : d) if (ch == '\n' || ch == '\t') ch = ' '; out += "V\t" + v.first + "\t" + std::to_string(v.second.count) + "\t" + d + "\n"; }
+	return out;
 }
 
 // ------------------------------------------------------------------ text part
@@ -751,6 +845,7 @@ void mc_jobs(Tier t, std::vector<std::string> &jobs)
 	// big jobs first
 	if (t == Thorough) for (const char *e : {"direct"}) for (char s : {'i', 'u', 'f'}) for (int k = 0; k < SLICES; ++k) jobs.push_back(fmt("sweep:%s:%c:%d", e, s, k));
 	for (const char *s = "edfxtiunqcby"; *s; ++s) for (int e = 0; e < 4; ++e) jobs.push_back(fmt("val:%s:%c", ENTRY[e], *s));
+	for (int e = CXX0; e < CXX0 + NCXX; ++e) jobs.push_back(fmt("cxx:%s", ENTRY[e]));
 	std::vector<int> bases = {0, 10, 16, 8};
 	if (t == Thorough) { bases.push_back(2); bases.push_back(36); }
 	for (int i = 0; i < NTENT; ++i) {
@@ -766,13 +861,13 @@ static std::vector<std::string> split(const std::string &s, char c)
 	std::vector<std::string> v; size_t p = 0;
 	for (;;) { size_t e = s.find(c, p); if (e == std::string::npos) { v.push_back(s.substr(p)); return v; } v.push_back(s.substr(p, e - p)); p = e + 1; }
 }
-static int entry_ix(const std::string &n) { for (int e = 0; e < 4; ++e) if (n == ENTRY[e]) return e; return 0; }
+static int entry_ix(const std::string &n) { for (int e = 0; e < CXX0 + NCXX; ++e) if (n == ENTRY[e]) return e; return 0; }
 
 struct JobCtx {
 	std::string kind;
 	VJob *vj; std::vector<Val> vals; int slice; std::string swt;
-	TJob tj; uint64_t nshort;
-	JobCtx() : vj(0), slice(0), nshort(0) {}
+	TJob tj; uint64_t nshort; int cxx_entry;
+	JobCtx() : vj(0), slice(0), nshort(0), cxx_entry(0) {}
 	~JobCtx() { delete vj; }
 };
 static void setup(JobCtx &jc, Run &r, const std::string &job)
@@ -780,6 +875,7 @@ static void setup(JobCtx &jc, Run &r, const std::string &job)
 	install_guard();
 	std::vector<std::string> p = split(job, ':');
 	jc.kind = p[0];
+	if (jc.kind == "cxx") { jc.cxx_entry = entry_ix(p[1]); return; }
 	if (jc.kind == "val" || jc.kind == "sweep") {
 		jc.vj = new VJob(entry_ix(p[1]), p[2][0]);
 		if (jc.kind == "val") gen_values(p[2][0], jc.vals);
@@ -800,6 +896,24 @@ static void body(Run &r, JobCtx &jc, Ctx &x)
 	bool single = x.prefix.size() > 2;
 	uint64_t st0 = r.states;
 	struct Ex { Run &r; uint64_t s0; ~Ex() { if (r.states > s0) r.executions += r.states - s0 - 1; } } ex_{r, st0};
+	if (jc.kind == "cxx") {
+		const int NS = (int) strlen(SRC);
+		char A = SRC[x.choose(NS)], B = SRC[x.choose(NS)];
+		int e = jc.cxx_entry;
+		std::string h = std::string(ENTRY[e]) + "|" + A + " then " + B;
+		r.hint(h.c_str());
+		Tier tier = r.tier;
+		std::string res = in_child([=]() { return cxx_pair(tier, e, A, B); }, 60);
+		if (!res.empty() && res[0] == 1) { r.violation(h + "|any|child-" + res.substr(1), fmt("%s: converting '%c' values, then '%c' values, then '%c' again in one process: the process ended with %s", ENTRY[e], A, B, A, res.substr(1).c_str())); return; }
+		if (A == 'i' && B == 'x') r.sample(fmt("%s: fresh process; wrapper objects holding every '%c' value x targets %s x {perform, query}, then every '%c' value, then '%c' again (12 x 12 ordered type pairs)", ENTRY[e], A, DST, B, A));
+		for (const std::string &ln : split(res, '\n')) {
+			std::vector<std::string> f = split(ln, '\t');
+			if (f[0] == "N" && f.size() >= 3) { r.states += strtoull(f[1].c_str(), 0, 10); r.transitions += strtoull(f[2].c_str(), 0, 10); }
+			else if (f[0] == "C" && f.size() >= 3) r.count(f[1], strtoull(f[2].c_str(), 0, 10));
+			else if (f[0] == "V" && f.size() >= 4) r.violation(f[1], fmt("[order: '%c' values, then '%c', then '%c' again in one process] ", A, B, A) + f[3]);
+		}
+		return;
+	}
 	if (jc.kind == "val") {
 		VJob &J = *jc.vj;
 		uint64_t nblocks = (jc.vals.size() + VBLOCK - 1) / VBLOCK;
@@ -856,7 +970,8 @@ void mc_explore(Run &r, const std::string &job)
 	r.require("text:accepted_exact"); r.require("text:accepted_rounded_neighbour(float target)"); r.require("text:refused_unrepresentable"); r.require("text:query_mode_agrees");
 	for (const char *c : {"in-range", "above-max", "below-min", "negative-to-unsigned", "beyond-64bit", "float-overflow", "float-underflow", "finite", "inf", "nan", "no-numeral", "character"}) r.require(std::string("text:input:") + c);
 	dfs(r, [&](Ctx &x) { body(r, jc, x); });
-	if (jc.vj) jc.vj->c.flush(r, "value:"); else jc.tj.c.flush(r, "text:");
+	if (jc.vj) jc.vj->c.flush(r, "value:"); else if (jc.kind != "cxx") jc.tj.c.flush(r, "text:");
+	r.require("cxx-generic:accepted_exact"); r.require("cxx-generic:refused_unrepresentable"); r.require("cxx-generic:wrapper_objects"); r.require("cxx-tvalue:accepted_exact"); r.require("cxx-metaptr:accepted_exact");
 }
 void mc_replay(Run &r, const std::string &job, const Vec &v)
 {
